@@ -227,6 +227,8 @@ func runC01(c *Check, a *Analysis) {
 	// ---- copy before decode / use after release (shared engines)
 	ruleClientCopyBeforeDecode(c, a, "R-COPY-BEFORE-DECODE")
 	ruleUseAfterRelease(c, a, "R-UAR", uarClient)
+	// a Call recycled while a response for it can still be processed receives another call's reply
+	ruleRecycle(c, a, computeCompletion(p), "R-RECYCLE")
 }
 
 func isGetSeqCall(v ssa.Value) bool {
